@@ -1,6 +1,7 @@
 #![recursion_limit = "512"]
 mod common;
 mod pgconfig;
+mod pgmgr;
 mod redisconfig;
 mod redismgr;
 mod syncmgr;
@@ -35,6 +36,12 @@ fn main() {
                         "sqlite" => Arc::new(move |p, obs| syncmgr::run_path::<syncmgr::Sqlite>(&cfg, p, obs)),
                         _ => Arc::new(move |p, obs| syncmgr::run_path::<syncmgr::Diesel>(&cfg, p, obs)),
                     };
+                    run_all(paths, run, &args[3..]);
+                }
+                "pgmgr" => {
+                    let (head, paths) = load_paths::<pgmgr::Post>(file, only);
+                    let cfg: pgmgr::Cfg = serde_json::from_value(head["cfg"].clone()).expect("cfg");
+                    let run: Runner<pgmgr::Post> = Arc::new(move |p, obs| pgmgr::run_path(&cfg, p, obs));
                     run_all(paths, run, &args[3..]);
                 }
                 "redismgr" => {
